@@ -22,7 +22,7 @@ def run(pid, tier):
         for threads, cos in ((2, 0), (0, 3), (3, 3), (6, 6) if thorough else (4, 2)):
             scs.append({"kind": "own", "threads": threads, "cos": cos, "loops": rng.choice([1, 2]), "src": "own-completion"})
         scs.append({"kind": "error", "threads": 2, "cos": 2, "loops": 1, "src": "error-completions"})
-        scs.append({"kind": "burst", "threads": 3, "rounds": 2000 if thorough else 300, "loops": 1, "src": "burst"})
+        scs.append({"kind": "burst", "threads": 3, "rounds": 1000 if thorough else 300, "loops": 1, "src": "burst"})
         # the TLC counterexample of deviation submit_before_insert imposed on the real threads (pause point)
         scs.append({"kind": "gap", "threads": 2, "rounds": 20, "loops": 1, "src": "forced-reap-before-slot"})
         scs.append({"kind": "gap", "threads": 3, "rounds": 10, "loops": 2, "src": "forced-reap-before-slot"})
@@ -30,7 +30,7 @@ def run(pid, tier):
         scs.append({"kind": "again", "loops": 1, "src": "call-after-timeout"})
     for i, s in enumerate(scs):
         s["id"] = i + 1
-        s["timeout_ms"] = 25000
+        s["timeout_ms"] = 25000 + 30 * s.get("rounds", 0)
     tpath = drive(bindir, "uring", scs, wd, "ureset", "uend", timeout=3000)
     sanitize_ndjson(tpath, "uend")
     info = validate_full("Trace_IoUring", tpath)
